@@ -43,6 +43,11 @@ checks.update({
    text="A tap in the HTTP client layer inspects every response produced by the request grammar (all routes, methods, refusals, unknown routes), by protocol histories (200/404/409/410) and by a storage failing on purpose (500); each must carry Cache-Control with no-store; the run must have observed 200/400/404/409/410/500 and unknown routes.",
    note="Scope: responses generated by the application service; replies actix's HTTP/1 codec emits before routing (syntactically invalid HTTP) never reach the application and are not judged."),
 })
+checks.update({
+ "C03": dict(cat="exploration", tech="runtime monitoring: controlled scheduler at the Storage-trait boundary (DFS over transaction orders + real-lock probes) with a differential linearizability oracle", ref="DESIGN.md §6 E2, §7 C03",
+   text="2-3 worker threads run real requests (library and HTTP handlers) against one shared storage (in-memory, one SQLite object, one SQLite object per worker on one directory) under a controller that grants one worker at a time at every storage call, transaction begin and request invoke/return. All begin orders exclusive locking permits are enumerated per scenario (capped in quick), plus randomly scheduled executions that begin a transaction while another is open so the backend's own lock/busy handler is exercised. An execution is accepted iff some real-time-respecting one-at-a-time order of the same requests, executed by the same code on a fresh storage, gives the same responses and final state; any server error under overlap is a violation. One recorded finding (two-step client creation observable through AddSnapshot) is matched by signature and printed as KNOWN-FINDING.",
+   note="Bounded: 2-3 requests, yield points at storage-call granularity; interleavings inside SQLite and between processes are left to the stress tier. The sequential reference is the code itself (differential), so a purely sequential defect is not attributed to C03."),
+})
 checks.update(json.load(open('/verif/tools/manifest_extra.json')) if __import__('os').path.exists('/verif/tools/manifest_extra.json') else {})
 
 m = {
